@@ -1,53 +1,14 @@
 package c08
 
 import (
-	"math/rand/v2"
+	"encoding/json"
 	"testing"
-	"time"
 )
 
 func TestScratch(t *testing.T) {
-	if !checkBuilder() {
-		t.Fatal("builder mismatch")
+	d := directed()
+	for _, i := range []int{91, 0} {
+		b, _ := json.Marshal(d[i].spec.Tdx)
+		t.Logf("%d %s %v only=%v\n%s", i, d[i].class, d[i].muts, d[i].only, b)
 	}
-	ents := entries()
-	for i, cs := range directed() {
-		switch cs.class {
-		case "genuine", "well-formed", "directed:sev-4GiB-disjoint", "directed:tdx-large-but-plausible", "directed:tdx-many-sections":
-		default:
-			continue
-		}
-		fw := cs.spec.Build()
-		for _, e := range ents {
-			if len(cs.only) > 0 {
-				ok := false
-				for _, o := range cs.only {
-					ok = ok || o == e.name
-				}
-				if !ok {
-					continue
-				}
-			}
-			t0 := time.Now()
-			err := e.call(fw, &cs.opts)
-			t.Logf("%d %s %v len=%d %s: %v err=%v", i, cs.class, cs.muts, len(fw), e.name, time.Since(t0), err)
-		}
-	}
-	// random well-formed acceptance
-	r := rand.New(rand.NewPCG(1, 2))
-	bad := 0
-	for k := 0; k < 300; k++ {
-		s := wellFormed(r, drawSize(r)&^4095)
-		o := normalOpts(r)
-		fw := s.Build()
-		for _, e := range ents {
-			if err := e.call(fw, &o); err != nil {
-				bad++
-				if bad < 10 {
-					t.Logf("well-formed rejected by %s: %v", e.name, err)
-				}
-			}
-		}
-	}
-	t.Logf("well-formed rejected: %d", bad)
 }
